@@ -60,6 +60,10 @@ def run(prog: Program, col: Collector, tier: str, refs: Optional[Refs] = None, c
     col.rule("R01.16", "mixed scalar/array registrations of a commutative op are mirror images", floor=6)
     from . import c15
     c15._mirror(prog, col, refs, cat)
+    # the eager tensor kernels split arrays into batch and event dimensions (shared with C06 R06.10)
+    col.rule("R01.17", "the batch / event boundary of a tensor's array is computed from that tensor's own event rank", floor=2)
+    from . import c06
+    c06._boundary_of_own_tensor(prog, col, refs, cat)
     # eager evaluation of Number operands runs the scalar implementation of an op, of Tensor operands the array one: they must agree
     from . import numerics
     numerics.run_agreement(prog, col, refs, cat, rule="R01.13")
